@@ -781,3 +781,39 @@ SPECS["C12"] = CheckSpec(
     technique="exhaustive input enumeration on the real code against an independent RFC 8205 verifier (INX)",
     design_ref="DESIGN.md §3 C12", engine="INX",
 )
+
+
+# --------------------------------------------------------------------------- C09
+C09_BUILD = dict(flavour="asan", name="c09_cb", harness_srcs=["c09_cb.c"],
+                 exclude_lib=["rtrlib/pfx/trie/trie-pfx.c", "rtrlib/spki/hashtable/ht-spkitable.c"],
+                 extra_ldflags=["-Wl,--wrap=lrtr_get_monotonic_time,--wrap=sleep,--wrap=lrtr_dbg"])
+
+
+def c09_jobs(tier, repo):
+    d = 10 if tier == "quick" else 20
+    return [Job("c09_cb", C09_BUILD, ["--max-depth=%d" % d], "6 records, two sources"),
+            Job("c09_cb", C09_BUILD, ["--max-depth=%d" % d, "--small"], "5 records"),
+            Job("c09_cb", C09_BUILD, ["--max-depth=%d" % d, "--deep"], "nested chain, other source on top")]
+
+
+SPECS["C09"] = CheckSpec(
+    "C09", c09_jobs,
+    rule="explicit-state BFS over histories on a prefix table with a callback installed: add / remove of records of two "
+         "sources (incl. twins and a nested chain with the other source's nodes on top), remove-by-source, eight "
+         "synchronisation macro-operations executed by the real rtr_sync (deltas that succeed or are rolled back after "
+         "the first / middle / last PDU depending on the state, reloads with subset / superset / disjoint / failing "
+         "sets) and destruction (pfx_table_free + re-init); a mirror set is driven ONLY by the callbacks: reporting the "
+         "addition of a member or the removal of a non-member is a violation at once, after every operation the mirror "
+         "must equal the enumeration of the real table, a reload may only report records in the net difference of the "
+         "reloading source, single operations / reloads / destruction report a record at most once, after destruction "
+         "the mirror is empty; state key = real trie dump + mirror",
+    assumptions=["record alphabets of 5-7 records; the fixed point is reached for each of the three alphabets"],
+    counters_map={"executions": ["transitions"], "distinct": ["states"]},
+    level_text="Explicit-state model checking to the fixed point: every history over the operation alphabet, including "
+               "histories driven by cache responses through the real synchronisation code, with the callback stream "
+               "replayed into a mirror as the oracle.",
+    level_note="Real pfx table + real rtr_sync over the fake transport (direct calls). The oracle never looks at what an "
+               "operation is supposed to do, only at the callback stream versus the table's enumeration.",
+    technique="explicit-state BFS over operation histories incl. synchronisation macro-operations on the real objects (SEQX)",
+    design_ref="DESIGN.md §3 C09", engine="SEQX",
+)
